@@ -801,14 +801,19 @@ impl<'a> GeneratorState<'a> {
         }
     }
 
-    pub(crate) fn generate_bnot(&mut self, expr: &Expr, pos: usize) -> Result<ExprType, Error>
+    pub(crate) fn generate_bnot(&mut self, expr: &Expr, pos: usize, high_byte: bool) -> Result<ExprType, Error>
     {
         match expr {
             Expr::Integer(i) => Ok(ExprType::Immediate(!*i)),
             _ => { 
-                let left = self.generate_expr(expr, pos, false, false)?;
-                let right = ExprType::Immediate(0xff);
-                self.generate_arithm(&left, &Operation::Xor(false), &right, pos, false)
+                let left = self.generate_expr(expr, pos, high_byte, false)?;
+                // A constant operand is complemented on its full width
+                if let ExprType::Immediate(v) = left {
+                    return Ok(ExprType::Immediate(!v));
+                }
+                // All the bits are complemented, those of the high byte included
+                let right = ExprType::Immediate(0xffff);
+                self.generate_arithm(&left, &Operation::Xor(false), &right, pos, high_byte)
             },
         }
     }
